@@ -409,6 +409,22 @@ class Project:
                 elif isinstance(s, ast.AnnAssign):
                     tgt, val = s.target, s.value
                 if isinstance(tgt, ast.Attribute) and tgt.attr == attr and isinstance(tgt.value, ast.Name) and tgt.value.id == "self":
+                    # an injectable collaborator with a library default (`mgr or Manager()`, `Manager() if mgr is None else mgr`,
+                    # `self.mgr = mgr` on the arm where one was given): the class read is the library's own implementation
+                    margs = m.node.args
+                    optional_params = {a.arg for a, d in zip((margs.posonlyargs + margs.args)[::-1], margs.defaults[::-1]) if isinstance(d, ast.Constant) and d.value is None} | {a.arg for a, d in zip(margs.kwonlyargs, margs.kw_defaults) if isinstance(d, ast.Constant) and d.value is None}
+                    if isinstance(val, ast.Name) and val.id in optional_params:
+                        rebinds = [x.value for x in _walk_no_nested(m.node) if isinstance(x, ast.Assign) and len(x.targets) == 1 and isinstance(x.targets[0], ast.Name) and x.targets[0].id == val.id]
+                        if len(rebinds) == 1 and isinstance(rebinds[0], ast.Call):
+                            val = rebinds[0]  # `if mgr is None: mgr = Manager()` … `self.mgr = mgr`
+                        else:
+                            continue
+                    if isinstance(val, ast.BoolOp) and isinstance(val.op, ast.Or) and len(val.values) == 2 and isinstance(val.values[0], ast.Name) and val.values[0].id in optional_params:
+                        val = val.values[1]
+                    elif isinstance(val, ast.IfExp):
+                        arms = [x for x in (val.body, val.orelse) if not (isinstance(x, ast.Name) and x.id in optional_params)]
+                        if len(arms) == 1:
+                            val = arms[0]
                     if isinstance(val, ast.Call) and isinstance(val.func, ast.Name):
                         kind, obj = self.resolve_name(ci.module.name, val.func.id)
                         found.add(obj.qual if kind == "class" else None)
